@@ -9,6 +9,7 @@ from ..repo import roberta_generator as G, REPO
 
 PROP = "C15"
 LOOSE_PROBS = (0.01, 0.3, 0.5, 0.99)
+FREQ_PROBS = (0.004, 0.01, 0.125, 0.3, 0.333, 0.5, 0.99, 0.996)      # includes values that are not whole percentages
 
 
 # ------------------------------------------------------------------------------------------- range / shape leg
@@ -149,7 +150,7 @@ def work_frequency(shard):
     ntiles = length * width
     try:
         grid = [(k + 0.5) / M for k in range(M)]
-        for p in LOOSE_PROBS:
+        for p in FREQ_PROBS:
             ulp = 2.0 ** -53
             boundary = [0.0, ulp, p - p * ulp, p, 1 - ulp]
             loose_count = 0
